@@ -195,6 +195,14 @@ def obligations(tier, seed):
                               desc="a link line with symbolic selector form (missing, empty, relative file/dir, absolute, URL:, nonexistent), host and port (missing/empty/given), an info line, "
                                    "a blank line and a second link line: one entry per line in file order with the documented fields; prepare() never touches the protocol object",
                               bounds="9 selector forms x 3 host x 3 port x second line (symbolic indices)", functions=["pygopherd.handlers.gophermap.BuckGophermapHandler.prepare", "GopherEntry.populatefromvfs"]))
+    from harness import C06 as c06
+
+    for kind in c06.KINDS:
+        for form, fname in ((5, "blank-info-line"), (0, "empty-description-link")):
+            obs.append(Ob(id="C09.4-render[%s,%s]" % (dl.PROTO_NAMES[kind], fname), body="harness.C06:body_agree", sig="kind: int, form: int, t: int, name: str, tail: str, port: int",
+                          pre=["kind == %d" % kind, "form == %d" % form, "0 <= t < %d" % len(c06.TYPES), "len(name) <= 1", "all(c in 'n ' for c in name)", "name == name.strip()", "tail == 'a'", "port == 70"],
+                          timeout=200, desc="the same gophermap entry (a blank informational line / a link with an empty description) is rendered by %s with the entry's own (possibly empty) text, never with its selector" % dl.PROTO_NAMES[kind],
+                          bounds="description '' or one character; all item types (symbolic)", functions=["protocols.*.renderobjinfo/getrenderstr"]))
     obs.append(Ob(id="C09.3-choice", body="harness.C09:body_choice", sig="isdir: bool, isreg: bool, has_map: bool, map_is_dir: bool, suffix: int", pre=["0 <= suffix <= 3"], timeout=120,
                   desc="the handler is chosen for a directory whose `gophermap` is a regular file and for regular files named *.gophermap, nothing else",
                   bounds="stat class x gophermap presence/kind x 4 selector spellings (symbolic)", functions=["BuckGophermapHandler.canhandlerequest"]))
